@@ -77,6 +77,8 @@ class Scheduler:
         self.prologue_len = 0      # number of leading decisions that belong to a solo prologue thread
         self.after_point = None    # hook(worker, label): called in the worker when it has been scheduled
         self.stray = []
+        self.locks = []            # instrumented locks (for the deadlock report)
+        self.lock_owners_at_deadlock = []
         self.warming = False
         self._warm_evt = threading.Event()
         self._lock = threading.Lock()    # protects the teardown only
@@ -179,6 +181,7 @@ class Scheduler:
                 if unfinished:
                     self.deadlock = True
                     self.blocked_at_end = unfinished
+                    self.lock_owners_at_deadlock = [l.owner for l in self.locks]
                     self._abort()
                 return None
             if len(self.trace) >= self.max_steps:
@@ -393,6 +396,7 @@ class InstrLock:
 
     def __init__(self, sched):
         self.sched = sched
+        sched.locks.append(self)
         self.owner = None
         self.acquisitions = 0
         self.log = []
@@ -463,6 +467,7 @@ class MakoWorld:
         self.constructions = 0
         self.constructing = 0
         self.memo_inits = {}            # (id(template), property) -> number of initialisations by renders
+        self.lru_del_keyerrors = 0
         self.lru_inside = 0             # number of threads inside LRUCache.__setitem__ / _manage_size
         self.construction_log = []      # (id, tid) in order
         self._saved = []
@@ -588,7 +593,11 @@ class MakoWorld:
 
             def __delitem__(s, k):
                 sched.point("D")
-                return dict.__delitem__(s, k)
+                try:
+                    return dict.__delitem__(s, k)
+                except KeyError:
+                    world.lru_del_keyerrors += 1      # tolerated by `_manage_size` (break, loop again)
+                    raise
 
         # `_uri_cache` (adjust_uri): points at the membership test, the read and the store; the LRU's
         # `_manage_size` runs inside the store step (no point at its `len`/`del`)
